@@ -38,12 +38,16 @@ def _quiet():
 
 
 class _Fails:
-    def __init__(self):
+    def __init__(self, driver=None, tier=None, seed=None):
         self.items = []
+        # enough to regenerate the case: the drivers are deterministic in (tier, seed)
+        self.ctx = {"driver": driver, "tier": tier, "seed": seed}
 
     def add(self, key, clause, inp, observed):
         if sum(1 for f in self.items if f["key"] == key) < 2:
-            self.items.append({"key": key, "clause": clause, "input": inp, "observed": str(observed)[:600]})
+            if isinstance(inp, dict):
+                inp = dict(inp, generated_by=dict(self.ctx))
+            self.items.append({"key": key, "clause": clause, "input": inp, "observed": str(observed)[:900]})
 
 
 def _f32(x):
@@ -369,7 +373,7 @@ def _bounded_inventory(tier, seed):
     from hippolyzer.lib.base.wearables import Wearable
     from hippolyzer.lib.base.templates import WearableType
     rng = random.Random(seed)
-    fails = _Fails()
+    fails = _Fails("bounded_inventory", tier, seed)
     evals, seen, samples = 0, set(), []
     n_lookup, bad = _lookup_names(fails)
     evals += n_lookup
@@ -408,6 +412,7 @@ def _bounded_inventory(tier, seed):
 
     for run in range(runs):
         wide = run % 4 == 3
+        fails.ctx["model"] = run
         nodes = gen.nodes(wide)
         flavors = ["legacy", "ais"] if wide else ["text", "legacy", "ais"]
         if len(samples) < 3:
@@ -582,7 +587,7 @@ def _bounded_animations(tier, seed):
     from hippolyzer.lib.base.llanim import Animation
     rng = random.Random(seed)
     gen = AnimGen(rng)
-    fails = _Fails()
+    fails = _Fails("bounded_animations", tier, seed)
     evals, seen, samples = 0, set(), []
     runs = 400 if tier == "quick" else 3000
     clause = "parsing the serialisation of an animation yields an equal animation (quantised members: equal on the decoded image)"
@@ -590,6 +595,7 @@ def _bounded_animations(tier, seed):
         version = (0, 1) if run % 2 == 0 else (1, 0)
         vname = "v%d.%d" % version
         a = gen.animation(version)
+        fails.ctx["animation"] = run
         evals += 1
         inp = {"version": list(version), "animation": _short(a, 1200)}
         try:
@@ -742,7 +748,7 @@ def _bounded_meshes(tier, seed):
     from hippolyzer.lib.base.mesh import LLMeshSerializer
     rng = random.Random(seed)
     gen = MeshGen(rng)
-    fails = _Fails()
+    fails = _Fails("bounded_meshes", tier, seed)
     evals, seen, samples = 0, set(), []
     runs = 240 if tier == "quick" else 1500
     clause = "parsing the serialisation of a mesh asset yields an equal asset (quantised members: equal on the decoded image)"
@@ -759,6 +765,7 @@ def _bounded_meshes(tier, seed):
 
     for run in range(runs):
         m = gen.mesh()
+        fails.ctx["asset"] = run
         e = rng.choice(["!", "<"])
         evals += 1
         ser = LLMeshSerializer()
@@ -951,7 +958,7 @@ def _bounded_transfers(loop, tier, seed):
     from hippolyzer.lib.base.transfer_manager import TransferManager, Transfer
     from hippolyzer.lib.base.xfer_manager import Xfer, XferManager
     rng = random.Random(seed)
-    fails = _Fails()
+    fails = _Fails("bounded_transfers", tier, seed)
     evals, seen, samples = 0, set(), []
     thorough = tier != "quick"
     MAXN = 5
